@@ -26,6 +26,10 @@ def graphs():
     for kind, extra in (("zip", {}), ("combine_latest", {"b2": True, "eon": [1, 2]}), ("union", {})):
         p = [S(), S(), S(), P.node(kind, ups=[1, 2], **extra), P.node("sink", f="ok", ups=[4])]
         G.append(("three_src_" + kind, p))
+    # a zip built with literal arguments: the literals keep their positions whatever is connected / disconnected later
+    p = [S(), S(), S(), P.node("zip", ups=[1, 2], lits=[[1, ["i", 7]]]), P.node("sink", f="ok", ups=[4])]
+    G.append(("three_src_zip_literal", p))
+    # (a literal placed behind more inputs than remain makes pack_literals raise: positions are kept within reach)
     p = [S(), S(), P.node("map", f="inc", ups=[1]), P.node("sink", f="ok", ups=[3]), P.node("map", f="dbl", ups=[1]),
          P.node("sink", f="ok", ups=[1])]
     G.append(("branches", p))
